@@ -334,4 +334,117 @@ theorem doseid_eq_walk {cfg : Cfg} {ds : List Rec} (h : Regular cfg ds) :
   · exact doseidAt_dose cfg a r b hrow hd
   · exact doseidAt_nondose cfg a r b hrow hd
 
+/-! ### dose records: no side condition -/
+
+theorem foldl_stepSt_cur (cfg : Cfg) (P : List Rec) (s : St) :
+    (P.foldl (stepSt cfg) s).cur = s.cur + ((P.filter isDose).length : Int) := by
+  induction P generalizing s with
+  | nil => simp
+  | cons x P ih =>
+    simp only [List.foldl_cons]
+    rw [ih]
+    by_cases hd : x.amt > 0
+    · have : isDose x = true := by simp [isDose, hd]
+      simp [stepSt, hd, List.filter_cons, this]; omega
+    · have : isDose x = false := by simp [isDose, hd]
+      simp [stepSt, hd, List.filter_cons, this]
+
+/-- at a dose record `get_doseid` is the walk, for every dataset -/
+theorem doseidAt_dose_any (cfg : Cfg) (a : List Rec) (r : Rec) (b : List Rec) (hd : r.amt > 0) :
+    doseidAt cfg a r b = outSt cfg (stateOf cfg a r.id) r := by
+  have hne : (r.amt == 0) = false := by
+    have : r.amt ≠ 0 := by grind
+    simpa using this
+  simp only [doseidAt, elig, hne, Bool.false_and, Bool.false_eq_true, if_false, outSt, hd, if_true,
+    cumOf, stateOf]
+  rw [foldl_stepSt_cur]
+  have : (List.filter (sameId r) a) = a.filter (fun x => x.id == r.id) := rfl
+  rw [this, intSum_flag]
+  simp [flag, hd, St.init]
+
+theorem zipMapAux_zip {α β γ : Type} (f : List α → α → List α → β) (g : List α → α → List α → γ)
+    (pre l : List α) :
+    (zipMapAux f pre l).zip (zipMapAux g pre l) = zipMapAux (fun p r q => (f p r q, g p r q)) pre l := by
+  induction l generalizing pre with
+  | nil => rfl
+  | cons x l ih => simp [zipMapAux, ih]
+
+theorem zip_zipMapAux' {α β : Type} (f : List α → α → List α → β) (pre l : List α) :
+    l.zip (zipMapAux f pre l) = zipMapAux (fun p r q => (r, f p r q)) pre l := by
+  induction l generalizing pre with
+  | nil => rfl
+  | cons x l ih => simp [zipMapAux, ih]
+
+theorem doseid_walk_at_doses (cfg : Cfg) (ds : List Rec) :
+    ∀ p ∈ ds.zip ((getDoseid cfg ds).zip (walkDoseid cfg ds)), p.1.amt > 0 → p.2.1 = p.2.2 := by
+  intro p hp hd
+  rw [walkDoseid_eq] at hp
+  unfold getDoseid zipMap at hp
+  rw [zipMapAux_zip, zip_zipMapAux'] at hp
+  obtain ⟨a, r, b, _, rfl⟩ := mem_zipMapAux.mp hp
+  simpa using doseidAt_dose_any cfg a r b hd
+
+/-! ### datasets without ties: no other side condition (resets, any order of times) -/
+
+theorem foldl_stepSt_last (cfg : Cfg) (P : List Rec) (s : St) (t : Rat) (ssd : Bool) (g : Nat)
+    (h : (P.foldl (stepSt cfg) s).last = some (t, ssd, g)) :
+    s.last = some (t, ssd, g) ∨ ∃ d ∈ P, d.amt > 0 ∧ d.time = t := by
+  induction P generalizing s with
+  | nil => left; simpa using h
+  | cons x P ih =>
+    simp only [List.foldl_cons] at h
+    rcases ih _ h with h1 | ⟨d, hd, hd2⟩
+    · by_cases hx : x.amt > 0
+      · right
+        simp only [stepSt, hx, if_true, Option.some.injEq, Prod.mk.injEq] at h1
+        exact ⟨x, by simp, hx, h1.1⟩
+      · left
+        simpa [stepSt, hx] using h1
+    · right; exact ⟨d, by simp [hd], hd2⟩
+
+theorem doseidAt_notie (cfg : Cfg) (a : List Rec) (r : Rec) (b : List Rec)
+    (h : NoTie (a ++ r :: b)) (hd : ¬ r.amt > 0) :
+    doseidAt cfg a r b = outSt cfg (stateOf cfg a r.id) r := by
+  have hpw := (List.pairwise_append.mp h).2.2
+  have hG : groupDoses r a = [] := by
+    unfold groupDoses
+    rw [List.filter_filter, List.filter_eq_nil_iff]
+    intro x hx hc
+    simp only [sameIT, Bool.and_eq_true, beq_iff_eq, bne_iff_ne, ne_eq] at hc
+    exact hd (hpw x hx r (by simp) hc.2.1.symm hc.2.2.symm hc.1)
+  have hel : elig cfg a r b = false := by simp [elig, hG]
+  have hflag : flag r = 0 := by simp [flag, hd]
+  have hcur : (stateOf cfg a r.id).cur = ((List.filter isDose (a.filter (fun x => x.id == r.id))).length : Int) := by
+    unfold stateOf; rw [foldl_stepSt_cur]; simp [St.init]
+  have hcum : cumOf a r = (stateOf cfg a r.id).cur := by
+    unfold cumOf
+    have : List.filter (sameId r) a = a.filter (fun x => x.id == r.id) := rfl
+    rw [this, intSum_flag, hflag, hcur]; simp
+  simp only [doseidAt, hel, Bool.false_eq_true, if_false, outSt, hd, hcum]
+  cases hl : (stateOf cfg a r.id).last with
+  | none => simp
+  | some v =>
+    obtain ⟨t, ssd, g⟩ := v
+    have hne : (t == r.time) = false := by
+      rcases foldl_stepSt_last cfg _ St.init t ssd g (by unfold stateOf at hl; exact hl) with h0 | ⟨d, hdm, hdp, hdt⟩
+      · simp [St.init] at h0
+      · obtain ⟨hda, hdi⟩ := List.mem_filter.mp hdm
+        simp only [beq_iff_eq] at hdi
+        have : ¬ t = r.time := by
+          intro e
+          have hdne : d.amt ≠ 0 := by grind
+          exact hd (hpw d hda r (by simp) hdi.symm (by rw [hdt, e]) hdne)
+        simpa using this
+    simp [hne]
+
+theorem doseid_eq_walk_of_notie {cfg : Cfg} {ds : List Rec} (h : NoTie ds) :
+    getDoseid cfg ds = walkDoseid cfg ds := by
+  rw [walkDoseid_eq]
+  unfold getDoseid
+  apply zipMap_congr
+  intro a r b hs
+  by_cases hd : r.amt > 0
+  · exact doseidAt_dose_any cfg a r b hd
+  · exact doseidAt_notie cfg a r b (hs ▸ h) hd
+
 end Pharmpy.C14
